@@ -61,6 +61,10 @@ pub fn gen_plan(prop: &str, seed: u64, run: u64, tier: Tier) -> Plan {
     if nodes.iter().any(|n| n.family() == 3) && b.rng.chance(1, 3) {
         b.plan.iv = Some(crate::plan::IvSpec { site: "v3.local".into(), hex: b.rng.pick(&super::c03::CARRY_BLOCKS).to_string() });
     }
+    // the environment seam (see envseam.rs): in one run of eight unset variables the library asks for exist
+    if b.rng.chance(1, 8) {
+        b.plan.env = Some(if b.rng.bool() { "a5".repeat(32) } else { "true".into() });
+    }
     let n_seals = 4 + b.rng.usize_below(if thorough { 21 } else { 13 });
     for _ in 0..n_seals {
         let fk = *b.rng.pick(&fams);
